@@ -40,9 +40,9 @@ ASSUMPTIONS = [
 ]
 FLOORS = {"quick": {"steps_compared": 2500, "digests_compared": 2500,
                     "mutations": 300, "import_steps": 200},
-          "thorough": {"steps_compared": 150000, "digests_compared": 150000,
+          "thorough": {"steps_compared": 120000, "digests_compared": 150000,
                        "mutations": 20000, "import_steps": 15000}}
-N_SEQ = {"quick": 1280, "thorough": 24000}
+N_SEQ = {"quick": 1280, "thorough": 48000}
 KINDS = ["valid", "valid", "syntax", "matching", "conversion", "sectiondt",
          "import", "import", "override", "mutate", "mutate"]
 
